@@ -21,7 +21,8 @@
 
    TOKEN GRAMMAR (anything else gives POutside: the model claims nothing)
      * every character of every token is ASCII (code < 128) (checked chunk by chunk, in parsing order);
-     * before the formula name only the exact tokens  -q --quiet -v --verbose  (any number of them);
+     * before the formula name only the exact tokens  -q --quiet -v --verbose  (any number of them) and
+       -of / --output-format followed by dimacs or opb (latex is outside);
      * a token starting with "-" after a formula / transformation name is
          - an exact option string of that sub-command (php: --functional --onto; op: --total -t --smart -s
            --knuth2 --knuth3 --plant -p), or
@@ -46,7 +47,7 @@
 
    Identifiers are prefixed pl_ (single extracted OCaml module). *)
 From Coq Require Import ZArith List Bool Ascii String.
-From Cnfgen Require Import Sem Comb Linear IR Text Dimacs Cli GraphSpec GraphIO Subst FamTab FamFast
+From Cnfgen Require Import Sem Comb Linear IR Text Dimacs OpbText Cli GraphSpec GraphIO Subst FamTab FamFast
      Fam_php Fam_count Fam_cliquecol Fam_subsetcard C02Common Fam_tseitin Fam_coloring Fam_domset Fam_subgraph
      C03_Util Fam_ordering Fam_ramsey Fam_cpls Fam_pebbling PipelineGraph.
 Import ListNotations.
@@ -500,21 +501,32 @@ Definition pl_parse_transformation (name : text) (toks : list text) : pl_parsed 
 (* ------------------------------------------------------------------ *)
 (* the two top-level parsers                                           *)
 (* ------------------------------------------------------------------ *)
-Record pl_opts := mk_pl_opts { pl_quiet : bool }.
+Record pl_opts := mk_pl_opts { pl_quiet : bool; pl_opb : bool }.
 
 (* options of the main parser in front of the formula name: the mutually exclusive group
-   {--verbose/-v, --quiet/-q}.  Returns the options and, when a formula name follows, the parsed command *)
-Fixpoint pl_parse_main (seen_q seen_v : bool) (toks : list text) : pl_parsed (pl_opts * option pl_fcmd) :=
+   {--verbose/-v, --quiet/-q}, and --output-format/-of with its argument (choices latex dimacs opb; the last one
+   given wins).  Returns the options and, when a formula name follows, the parsed command *)
+Fixpoint pl_parse_main (seen_q seen_v opb : bool) (toks : list text) : pl_parsed (pl_opts * option pl_fcmd) :=
   match toks with
-  | [] => PlOk (mk_pl_opts seen_q, None)                   (* no generator: reported after all chunks are parsed *)
+  | [] => PlOk (mk_pl_opts seen_q opb, None)               (* no generator: reported after all chunks are parsed *)
   | t :: r =>
     if gs_teqb t (lit "-q") || gs_teqb t (lit "--quiet") then
-      if seen_v then PlErr else pl_parse_main true seen_v r
+      if seen_v then PlErr else pl_parse_main true seen_v opb r
     else if gs_teqb t (lit "-v") || gs_teqb t (lit "--verbose") then
-      if seen_q then PlErr else pl_parse_main seen_q true r
+      if seen_q then PlErr else pl_parse_main seen_q true opb r
+    else if gs_teqb t (lit "-of") || gs_teqb t (lit "--output-format") then
+      match r with
+      | [] => PlErr                                        (* expected one argument *)
+      | f :: r' =>
+        if pl_starts_dash f then PlOutside
+        else if gs_teqb f (lit "dimacs") then pl_parse_main seen_q seen_v false r'
+        else if gs_teqb f (lit "opb") then pl_parse_main seen_q seen_v true r'
+        else if gs_teqb f (lit "latex") then PlOutside
+        else PlErr                                         (* invalid choice *)
+      end
     else if pl_starts_dash t then PlOutside
     else match pl_parse_formula t r with
-         | PlOk c => PlOk (mk_pl_opts seen_q, Some c)
+         | PlOk c => PlOk (mk_pl_opts seen_q opb, Some c)
          | PlErr => PlErr
          | PlOutside => PlOutside
          end
@@ -522,7 +534,7 @@ Fixpoint pl_parse_main (seen_q seen_v : bool) (toks : list text) : pl_parsed (pl
 
 (* the first chunk (sys.argv[1:] up to the first -T) *)
 Definition pl_parse_chunk0 (toks : list text) : pl_parsed (pl_opts * option pl_fcmd) :=
-  if negb (forallb pl_is_ascii toks) then PlOutside else pl_parse_main false false toks.
+  if negb (forallb pl_is_ascii toks) then PlOutside else pl_parse_main false false false toks.
 
 (* one chunk after a -T *)
 Definition pl_parse_tchunk (toks : list text) : pl_parsed (option pl_tcmd) :=
@@ -704,17 +716,27 @@ Definition pl_quiet_of (argv : list String.string) : bool :=
   | _ => false
   end.
 
-(* quiet mode: to_file(output, 'dimacs', export_header=False, export_varnames=False).
-   Without -q the header is written: see PipelineHeader.v; here it is outside. *)
-Definition pl_render (quiet : bool) (r : pl_fres) : pipeline_result :=
+Definition pl_opb_of (argv : list String.string) : bool :=
+  match pl_parse_chunks (pl_chunks_of argv) with
+  | PlOk c => pl_opb (pl_o c)
+  | _ => false
+  end.
+
+(* to_file(output, fileformat, export_header, export_varnames=False): the DIMACS writer or the OPB writer
+   (a CNF object: one constraint `+1 x.. +1 ~x.. >= 1` per clause) *)
+Definition pl_write (opb : bool) (h : option Dimacs.header) (n : Z) (F : cnf) : text :=
+  if opb then print_opb h None (FCnf n F) else print_dimacs h None n F.
+
+(* quiet mode: export_header=False.  Without -q the header is written: see PipelineHeader.v; here it is outside. *)
+Definition pl_render (quiet opb : bool) (r : pl_fres) : pipeline_result :=
   match r with
-  | FrOk n F => if quiet then POut (print_dimacs None None n F) else POutside
+  | FrOk n F => if quiet then POut (pl_write opb None n F) else POutside
   | FrErr => PCliError
   | FrCrash => PCrash
   | FrOutside => POutside
   end.
 
 Definition cnfgen_main (argv : list String.string) : pipeline_result :=
-  pl_render (pl_quiet_of argv) (pl_formula argv).
+  pl_render (pl_quiet_of argv) (pl_opb_of argv) (pl_formula argv).
 Definition cnfgen_main_fast (argv : list String.string) : pipeline_result :=
-  pl_render (pl_quiet_of argv) (pl_formula_fast argv).
+  pl_render (pl_quiet_of argv) (pl_opb_of argv) (pl_formula_fast argv).
